@@ -15,15 +15,16 @@
      black -> 0, any other colour -> 1000 (see TermCore: a cell's transparency reads only bg = 0);
    * text of SendString / PlayMusic / hyperlink payloads, font tables, the palette, rendition flags other than blink;
    * OSC 4 is accepted without evaluating the palette regex (its only failure is an Err for an index >= 2^32);
-   * `CTerm:Font:` DCS strings and DECFRA with a non-scalar fill character are KNOWN panic classes: the model
-     returns their site as soon as such a string is executed (SITE_FONT, SITE_FILL_CHAR). *)
+   * a `CTerm:Font:` DCS string is loaded by C17's model of Parser::load_custom_font / BitFont::from_bytes (Model/Font.v)
+     with the base64 decoder of Model/Base64.v; of the loaded font only its slot number is kept ([fonts]: font_selection
+     succeeds for a slot that holds a font). *)
 From Coq Require Import ZArith NArith List Bool Lia.
 From IE Require Import Model.TermCore.
+From IE Require Lib.C17Lib Model.Font Model.Base64.      (* the BitFont model of C17 (load_custom_font, from_bytes); used qualified *)
 Import ListNotations.
 Local Open Scope Z_scope.
 
-Definition SITE_FONT : Z := 20.        (* BitFont::from_bytes on a stream-supplied font (known finding) *)
-Definition SITE_FILL_CHAR : Z := 21.   (* fill_rectangular_area: char::from_u32_unchecked on a non-scalar value (known) *)
+Definition SITE_FONT : Z := 20.        (* a panic site inside C17's model of load_custom_font / BitFont::from_bytes (none is reachable: font_dcs_total) *)
 Definition SITE_NUMS_INDEX : Z := 22.  (* parsed_numbers[i] out of range *)
 Definition SITE_FONT_SEL : Z := 23.    (* font_selection: BitFont::from_ansi_font_page *)
 
@@ -51,40 +52,45 @@ Record pst := mkPst {
   macros : list (Z * list Z);    (* HashMap<usize,String>: first match wins, insert = cons *)
   hlinks : nat;                  (* hyper_links.len() *)
   bice : bool;                   (* Buffer.ice_mode = Ice (set by CSI ?33h, read by the Avatar / PCBoard colour bytes) *)
+  fonts : list Z;                (* keys of Buffer.font_table added by `CTerm:Font:` DCS strings (slot 0 and the slots that
+                                    font_selection itself fills are in [font_slot]; nothing ever removes a key) *)
   resized : bool }.              (* GHOST: a text-area resize (CSI 8;h;w t) has been executed; C09 speaks about streams without one *)
 
 Record amach := mkA { tm : term; ps : pst }.
 Inductive outcome := OOk (m : amach) | OErr (m : amach) | OPanic (site : Z) | ODiverge.
 
 Definition set_st (p : pst) (s : estate) : pst :=
-  mkPst s (nums p) (saved_pos p) (saved_cur p) (last_char p) (music_opt p) (bs_ctrl p) (octave p) (mlength p) (tempo p) (pstr p) (macro_dcs p) (macros p) (hlinks p) (bice p) (resized p).
+  mkPst s (nums p) (saved_pos p) (saved_cur p) (last_char p) (music_opt p) (bs_ctrl p) (octave p) (mlength p) (tempo p) (pstr p) (macro_dcs p) (macros p) (hlinks p) (bice p) (fonts p) (resized p).
 Definition set_nums (p : pst) (l : list Z) : pst :=
-  mkPst (st p) l (saved_pos p) (saved_cur p) (last_char p) (music_opt p) (bs_ctrl p) (octave p) (mlength p) (tempo p) (pstr p) (macro_dcs p) (macros p) (hlinks p) (bice p) (resized p).
+  mkPst (st p) l (saved_pos p) (saved_cur p) (last_char p) (music_opt p) (bs_ctrl p) (octave p) (mlength p) (tempo p) (pstr p) (macro_dcs p) (macros p) (hlinks p) (bice p) (fonts p) (resized p).
 Definition set_saved_pos (p : pst) (x : Z * Z) : pst :=
-  mkPst (st p) (nums p) x (saved_cur p) (last_char p) (music_opt p) (bs_ctrl p) (octave p) (mlength p) (tempo p) (pstr p) (macro_dcs p) (macros p) (hlinks p) (bice p) (resized p).
+  mkPst (st p) (nums p) x (saved_cur p) (last_char p) (music_opt p) (bs_ctrl p) (octave p) (mlength p) (tempo p) (pstr p) (macro_dcs p) (macros p) (hlinks p) (bice p) (fonts p) (resized p).
 Definition set_saved_cur (p : pst) (x : option saved) : pst :=
-  mkPst (st p) (nums p) (saved_pos p) x (last_char p) (music_opt p) (bs_ctrl p) (octave p) (mlength p) (tempo p) (pstr p) (macro_dcs p) (macros p) (hlinks p) (bice p) (resized p).
+  mkPst (st p) (nums p) (saved_pos p) x (last_char p) (music_opt p) (bs_ctrl p) (octave p) (mlength p) (tempo p) (pstr p) (macro_dcs p) (macros p) (hlinks p) (bice p) (fonts p) (resized p).
 Definition set_last (p : pst) (c : Z) : pst :=
-  mkPst (st p) (nums p) (saved_pos p) (saved_cur p) c (music_opt p) (bs_ctrl p) (octave p) (mlength p) (tempo p) (pstr p) (macro_dcs p) (macros p) (hlinks p) (bice p) (resized p).
+  mkPst (st p) (nums p) (saved_pos p) (saved_cur p) c (music_opt p) (bs_ctrl p) (octave p) (mlength p) (tempo p) (pstr p) (macro_dcs p) (macros p) (hlinks p) (bice p) (fonts p) (resized p).
 Definition set_music (p : pst) (o l tp : Z) : pst :=
-  mkPst (st p) (nums p) (saved_pos p) (saved_cur p) (last_char p) (music_opt p) (bs_ctrl p) o l tp (pstr p) (macro_dcs p) (macros p) (hlinks p) (bice p) (resized p).
+  mkPst (st p) (nums p) (saved_pos p) (saved_cur p) (last_char p) (music_opt p) (bs_ctrl p) o l tp (pstr p) (macro_dcs p) (macros p) (hlinks p) (bice p) (fonts p) (resized p).
 Definition set_pstr (p : pst) (l : list Z) : pst :=
-  mkPst (st p) (nums p) (saved_pos p) (saved_cur p) (last_char p) (music_opt p) (bs_ctrl p) (octave p) (mlength p) (tempo p) l (macro_dcs p) (macros p) (hlinks p) (bice p) (resized p).
+  mkPst (st p) (nums p) (saved_pos p) (saved_cur p) (last_char p) (music_opt p) (bs_ctrl p) (octave p) (mlength p) (tempo p) l (macro_dcs p) (macros p) (hlinks p) (bice p) (fonts p) (resized p).
 Definition set_mdcs (p : pst) (l : list Z) : pst :=
-  mkPst (st p) (nums p) (saved_pos p) (saved_cur p) (last_char p) (music_opt p) (bs_ctrl p) (octave p) (mlength p) (tempo p) (pstr p) l (macros p) (hlinks p) (bice p) (resized p).
+  mkPst (st p) (nums p) (saved_pos p) (saved_cur p) (last_char p) (music_opt p) (bs_ctrl p) (octave p) (mlength p) (tempo p) (pstr p) l (macros p) (hlinks p) (bice p) (fonts p) (resized p).
 Definition set_macros (p : pst) (l : list (Z * list Z)) : pst :=
-  mkPst (st p) (nums p) (saved_pos p) (saved_cur p) (last_char p) (music_opt p) (bs_ctrl p) (octave p) (mlength p) (tempo p) (pstr p) (macro_dcs p) l (hlinks p) (bice p) (resized p).
+  mkPst (st p) (nums p) (saved_pos p) (saved_cur p) (last_char p) (music_opt p) (bs_ctrl p) (octave p) (mlength p) (tempo p) (pstr p) (macro_dcs p) l (hlinks p) (bice p) (fonts p) (resized p).
 Definition set_hlinks (p : pst) (n : nat) : pst :=
-  mkPst (st p) (nums p) (saved_pos p) (saved_cur p) (last_char p) (music_opt p) (bs_ctrl p) (octave p) (mlength p) (tempo p) (pstr p) (macro_dcs p) (macros p) n (bice p) (resized p).
+  mkPst (st p) (nums p) (saved_pos p) (saved_cur p) (last_char p) (music_opt p) (bs_ctrl p) (octave p) (mlength p) (tempo p) (pstr p) (macro_dcs p) (macros p) n (bice p) (fonts p) (resized p).
 
 Definition set_bice (p : pst) (b : bool) : pst :=
-  mkPst (st p) (nums p) (saved_pos p) (saved_cur p) (last_char p) (music_opt p) (bs_ctrl p) (octave p) (mlength p) (tempo p) (pstr p) (macro_dcs p) (macros p) (hlinks p) b (resized p).
+  mkPst (st p) (nums p) (saved_pos p) (saved_cur p) (last_char p) (music_opt p) (bs_ctrl p) (octave p) (mlength p) (tempo p) (pstr p) (macro_dcs p) (macros p) (hlinks p) b (fonts p) (resized p).
+
+Definition set_fonts (p : pst) (l : list Z) : pst :=
+  mkPst (st p) (nums p) (saved_pos p) (saved_cur p) (last_char p) (music_opt p) (bs_ctrl p) (octave p) (mlength p) (tempo p) (pstr p) (macro_dcs p) (macros p) (hlinks p) (bice p) l (resized p).
 
 Definition set_resized (p : pst) : pst :=
-  mkPst (st p) (nums p) (saved_pos p) (saved_cur p) (last_char p) (music_opt p) (bs_ctrl p) (octave p) (mlength p) (tempo p) (pstr p) (macro_dcs p) (macros p) (hlinks p) (bice p) true.
+  mkPst (st p) (nums p) (saved_pos p) (saved_cur p) (last_char p) (music_opt p) (bs_ctrl p) (octave p) (mlength p) (tempo p) (pstr p) (macro_dcs p) (macros p) (hlinks p) (bice p) (fonts p) true.
 
 Definition init_pst (music : Z) (bs : bool) : pst :=
-  mkPst SDefault [] (0, 0) None 0 music bs 3 4 120 [] [] [] O false false.
+  mkPst SDefault [] (0, 0) None 0 music bs 3 4 120 [] [] [] O false [] false.
 
 (* results of a command: state after, and whether it is an action or an error *)
 Definition ok (t : term) (p : pst) : outcome := OOk (mkA t p).
@@ -203,6 +209,7 @@ Definition cmd_ech (t : term) (p : pst) : outcome :=           (* erase_characte
 Definition rect_area (t : term) (a b c d : Z) : Z * Z * Z * Z :=
   let hmax := Z.max (zlen (lines t)) (th t) in
   (Z.min (Z.max a 1) hmax - 1, Z.min (Z.max b 1) (tw t) - 1, Z.min (Z.max c 1) hmax - 1, Z.min (Z.max d 1) (tw t) - 1).
+(* char::from_u32(n as u32).is_some() for an i32 n (a negative n wraps to a value >= 2^31: not a char) *)
 Definition is_scalar (c : Z) : bool := ((0 <=? c) && (c <? 55296)) || ((57344 <=? c) && (c <? 1114112)).
 Definition cmd_fill_rect (t : term) (p : pst) : outcome :=
   match nums p with
@@ -210,7 +217,7 @@ Definition cmd_fill_rect (t : term) (p : pst) : outcome :=
     if is_scalar ch then
       let '(tl, lc, bl, rc) := rect_area t a b c d in
       ok (fill_cells t (zrange_incl tl bl) (zrange_incl lc rc) (ch, cbg t)) (dflt p)
-    else OPanic SITE_FILL_CHAR
+    else err t (dflt p)        (* char::from_u32 (checked, after the fix): "invalid fill character" *)
   | _ => err t (dflt p)
   end.
 Definition cmd_erase_rect (t : term) (p : pst) : outcome :=
@@ -242,9 +249,12 @@ Definition cmd_window (t : term) (p : pst) : outcome :=        (* CSI .. t, stat
 (* BitFont::from_ansi_font_page knows the slots of the fonts! table in fonts.rs; anything else is an Err.
    The font table itself is not modelled (slot 0 is always present) *)
 Definition font_slot (n : Z) : bool := (0 <=? n) && (n <=? 42).     (* slots 0..=42 of the fonts! table (checked by stage C) *)
+(* `nr as usize` for an i32 *)
+Definition as_usize (n : Z) : Z := if n <? 0 then n + 18446744073709551616 else n.
+Definition zmem (x : Z) (l : list Z) : bool := existsb (Z.eqb x) l.
 Definition cmd_font_selection (t : term) (p : pst) : outcome :=
   match nums p with
-  | [_; nr] => if font_slot nr then ok t (dflt p) else err t (dflt p)
+  | [_; nr] => if zmem (as_usize nr) (fonts p) || font_slot nr then ok t (dflt p) else err t (dflt p)   (* buf.get_font(nr).is_some() || from_ansi_font_page(nr).is_ok() *)
   | _ => err t (dflt p)
   end.
 
@@ -293,10 +303,20 @@ Fixpoint hex_macro (s : list Z) (stt : hexst) (read_repeat : bool) (rep_rec : li
   end.
 
 Definition CTERM_FONT : list Z := [67; 84; 101; 114; 109; 58; 70; 111; 110; 116; 58].   (* "CTerm:Font:" *)
+(* Parser::load_custom_font: C17's model of the function (slot number, base64 payload, BitFont::from_bytes) decides
+   between Ok (the slot becomes a key of the font table) and Err; parse_string and parsed_numbers stay as they are.
+   C17 proves that its model never yields Panic / Diverge (Props/C17.v dcs_total); they are mapped, not hidden. *)
+Definition load_custom_font (t : term) (p : pst) (s : list Z) : outcome :=
+  match Font.load_custom_font Base64.decode (map Z.to_N s) with
+  | C17Lib.Ok (slot, _) => ok t (set_fonts p (Z.of_N slot :: fonts p))
+  | C17Lib.Err _ => err t p
+  | C17Lib.Panic _ => OPanic SITE_FONT
+  | C17Lib.Diverge => ODiverge
+  end.
 (* execute_dcs (state already Default) *)
 Definition execute_dcs (t : term) (p : pst) : outcome :=
   let s := rev (pstr p) in
-  if starts_with CTERM_FONT s then OPanic SITE_FONT else
+  if starts_with CTERM_FONT s then load_custom_font t p s else
   let '(ns, rest) := lead_nums s [] in
   let p1 := set_nums p ns in
   match rest with
